@@ -202,6 +202,7 @@ type explorer struct {
 	mu       sync.Mutex
 	total    [nKinds]*stats
 	nonrepro atomic.Int64
+	provWords [nProvs]atomic.Int64
 	capped   atomic.Bool
 }
 
@@ -253,11 +254,16 @@ func argClass(s step) string {
 type replayCase struct {
 	Mount string `json:"mount"`
 	Cross bool   `json:"cross,omitempty"` // a writable WithDirMount is mounted next to the immutable one
+	Prov  string `json:"provenance,omitempty"`
 	Word  []step `json:"word"`
 }
 
 func (w *world) rcase(word []step) replayCase {
-	return replayCase{kindNames[w.kind], w.cross, append([]step{}, word...)}
+	pn := ""
+	if w.prov != pDirect {
+		pn = provNames[w.prov]
+	}
+	return replayCase{kindNames[w.kind], w.cross, pn, append([]step{}, word...)}
 }
 
 // crossOps: operations with two descriptors, one on a WRITABLE mount ("rw": w.txt, wd/) and one on the
@@ -342,7 +348,7 @@ func (e *explorer) runWord(w *world, st *stats, word []step) ([]uint32, bool) {
 func (e *explorer) changed(w *world, st *stats, executed []step, cur string) {
 	effect, detail := diffSnap(w.baseline, cur)
 	last := executed[len(executed)-1]
-	sig := kindNames[w.kind] + ":" + last.Op + argClass(last) + ":" + effect
+	sig := w.sigPrefix() + ":" + last.Op + argClass(last) + ":" + effect
 	w.freshTree()
 	st.resets++
 	at, eff2 := replayWord(w, executed, nil)
@@ -360,6 +366,14 @@ func (e *explorer) changed(w *world, st *stats, executed []step, cur string) {
 	}
 	st.outcomes["CHANGED:"+sig]++
 	e.run.Violation(sig, what, w.rcase(executed))
+}
+
+// sigPrefix: mount kind, plus the configuration provenance when it is not the direct one.
+func (w *world) sigPrefix() string {
+	if w.prov != pDirect {
+		return kindNames[w.kind] + "@" + provNames[w.prov]
+	}
+	return kindNames[w.kind]
 }
 
 // replayWord runs the steps on the world's current (fresh) state and returns the index of the first
@@ -389,14 +403,14 @@ func (e *explorer) finalRead(w *world, st *stats) {
 		st.reads++
 		st.outcomes["read-through:"+errName(en)]++
 		if en != 0 || got != pc[1] {
-			e.run.Violation(kindNames[w.kind]+":read-through-mount:"+pc[0],
+			e.run.Violation(w.sigPrefix()+":read-through-mount:"+pc[0],
 				fmt.Sprintf("mount=%s: reading %q through the mount after the shard gives errno=%s content=%q, want %q", kindNames[w.kind], pc[0], errName(en), got, pc[1]),
 				w.rcase(nil))
 		}
 	}
 	if cur := w.snapshot(); cur != w.baseline {
 		_, detail := diffSnap(w.baseline, cur)
-		e.run.Violation(kindNames[w.kind]+":read-through-mount:changed", "reading through the mount changed the host state: "+detail, w.rcase(nil))
+		e.run.Violation(w.sigPrefix()+":read-through-mount:changed", "reading through the mount changed the host state: "+detail, w.rcase(nil))
 		w.freshTree()
 	}
 }
@@ -415,7 +429,7 @@ func nontrivial(errs []uint32) bool {
 // followed by every tail.
 func (e *explorer) openShard(kind int, path string, lookup uint16, rights uint64) {
 	st := newStats()
-	w := newWorld(kind, e.tmp, false)
+	w := newWorld(kind, e.tmp, false, pDirect)
 	defer func() { w.close(); e.merge(kind, st) }()
 	fdT := fdTails(e.thorough)
 	for of := uint16(0); of < 16; of++ {
@@ -493,10 +507,57 @@ func (e *explorer) openShard(kind int, path string, lookup uint16, rights uint64
 	st.resets += int64(w.resets)
 }
 
+// provOpenShard: under a non-direct configuration provenance, path_open with the flag/right combinations
+// that ask for modification (and plain read opens), each successful one followed by every tail.
+func (e *explorer) provOpenShard(kind, prov int, paths []string) {
+	st := newStats()
+	w := newWorld(kind, e.tmp, false, prov)
+	defer func() { w.close(); e.merge(kind, st); e.provWords[prov].Add(st.words) }()
+	fdT := fdTails(false)
+	for _, p := range paths {
+		for _, r := range []uint64{rRead, rWrite, rRead | rWrite} {
+			for _, of := range []uint16{0, wasip1.O_CREAT, wasip1.O_TRUNC, wasip1.O_CREAT | wasip1.O_TRUNC, wasip1.O_CREAT | wasip1.O_EXCL, wasip1.O_DIRECTORY} {
+				for _, ff := range []uint16{0, wasip1.FD_APPEND} {
+					if e.run.Expired() {
+						e.capped.Store(true)
+						return
+					}
+					open := step{Op: "path_open", Path: p, Lookup: 1, Oflags: of, Fdflags: ff, Rights: r}
+					errs, ok := e.runWord(w, st, []step{open, {Op: "fd_fdstat_get", Fd: "new"}})
+					if nontrivial(errs[:1]) {
+						st.nontriv++
+					}
+					if !ok || errs[0] != 0 {
+						continue
+					}
+					st.opensOK++
+					isDir := errs[1] == 0 && w.bufFiletype() == wasip1.FILETYPE_DIRECTORY
+					if isDir {
+						st.dirOpens++
+					}
+					for _, t := range append(append([][]step{}, fdT...), pathTails(isDir, false)...) {
+						word := append([]step{open}, t...)
+						errs, _ := e.runWord(w, st, word)
+						if len(errs) == len(word) && nontrivial(errs) {
+							st.nontriv++
+						}
+					}
+				}
+			}
+		}
+	}
+	e.finalRead(w, st)
+}
+
 // rootShard: single-step path and descriptor operations on the mount root.
 func (e *explorer) rootShard(kind int, ops []step, fdOps, cross bool) {
+	e.rootShardProv(kind, ops, fdOps, cross, pDirect)
+}
+
+func (e *explorer) rootShardProv(kind int, ops []step, fdOps, cross bool, prov int) {
 	st := newStats()
-	w := newWorld(kind, e.tmp, cross)
+	w := newWorld(kind, e.tmp, cross, prov)
+	defer func() { e.provWords[prov].Add(st.words) }()
 	defer func() { w.close(); e.merge(kind, st) }()
 	for _, s := range ops {
 		if e.run.Expired() {
@@ -565,6 +626,20 @@ func main() {
 		}
 		shards = append(shards, func() { e.rootShard(kind, rootFdOps(), true, false) })
 		shards = append(shards, func() { e.rootShard(kind, crossOps(paths), false, true) })
+		// configuration provenance: the same mount built in other, equivalent ways (quickPaths in both tiers)
+		for prov := 1; prov < nProvs; prov++ {
+			prov := prov
+			pr := rootPathOps(quickPaths)
+			for i := 0; i < len(pr); i += chunk {
+				part := pr[i:min(i+chunk, len(pr))]
+				shards = append(shards, func() { e.rootShardProv(kind, part, false, false, prov) })
+			}
+			shards = append(shards, func() { e.rootShardProv(kind, rootFdOps(), true, false, prov) })
+			for i := 0; i < len(quickPaths); i += 5 {
+				part := quickPaths[i:min(i+5, len(quickPaths))]
+				shards = append(shards, func() { e.provOpenShard(kind, prov, part) })
+			}
+		}
 	}
 	if pf := os.Getenv("C17_CPUPROFILE"); pf != "" { // developer aid only
 		f, err := os.Create(pf)
@@ -588,7 +663,7 @@ func main() {
 	bounds := map[string]any{
 		"paths": paths, "oflags": "all 16", "fdflags": "all 32", "rights": []string{"0", "READ", "WRITE", "READ|WRITE", "ALL"}, "lookupflags": "0,1",
 		"fd_tails": len(fdTails(e.thorough)), "path_tails_dir": len(pathTails(true, e.thorough)), "path_tails_nondir": len(pathTails(false, e.thorough)),
-		"three_step_words": e.thorough, "two_descriptor_words": e.thorough, "full_snapshot_every_words": e.fullEvery, "shards": len(shards), "explore_wall_s": float64(int(wall*10)) / 10,
+		"provenances": provNames[:], "three_step_words": e.thorough, "two_descriptor_words": e.thorough, "full_snapshot_every_words": e.fullEvery, "shards": len(shards), "explore_wall_s": float64(int(wall*10)) / 10,
 	}
 	var steps, words, nontriv, reads, opensOK int64
 	perKind := map[string]any{}
@@ -604,6 +679,14 @@ func main() {
 		perKind[kindNames[k]] = map[string]int64{"words": t.words, "steps_checked": t.steps, "nontrivial_words": t.nontriv,
 			"successful_path_open_classes": t.opensOK, "of_which_directories": t.dirOpens, "read_through_checks": t.reads, "tree_recreations": t.resets, "full_snapshots": t.fullSnaps}
 	}
+	provWords := map[string]int64{}
+	for i := 1; i < nProvs; i++ {
+		provWords[provNames[i]] = e.provWords[i].Load()
+	}
+	provWords[provNames[0]] = words
+	for i := 1; i < nProvs; i++ {
+		provWords[provNames[0]] -= e.provWords[i].Load()
+	}
 	// keep the evidence readable: outcome histogram sorted, CHANGED:* kept verbatim
 	keys := make([]string, 0, len(outcomes))
 	for k := range outcomes {
@@ -614,7 +697,7 @@ func main() {
 		Evaluations: steps, DistinctNontriv: nontriv,
 		Rule: "one evaluation = one WASI call executed through the guest followed by a full snapshot comparison; a case is a (mount, word) tuple, every tuple is enumerated exactly once; non-trivial = the word's last step was not stopped by argument validation (errno other than EINVAL/EFAULT/EPERM/ENOTDIR)",
 		Samples: e.samples.List(), Exhaustive: true, Outcomes: outcomes, Bounds: bounds,
-		Extra: map[string]any{"words": words, "successful_open_classes_extended_to_sequences": opensOK, "read_through_checks": reads, "per_mount": perKind},
+		Extra: map[string]any{"words_per_provenance": provWords, "words": words, "successful_open_classes_extended_to_sequences": opensOK, "read_through_checks": reads, "per_mount": perKind},
 	}, []string{
 		"the host kernel is trusted for lstat/readdir/read used by the snapshot; atime is excluded (kernel updates it on reads) except for the poison value the guest tries to set",
 		"one guest thread; concurrency between guests on the same mount is not exercised",
@@ -636,7 +719,7 @@ func replayMain(file string) {
 	}
 	tmp, err := os.MkdirTemp("", "c17-replay-")
 	must(err)
-	w := newWorld(kindByName(doc.Replay.Mount), tmp, doc.Replay.Cross)
+	w := newWorld(kindByName(doc.Replay.Mount), tmp, doc.Replay.Cross, provByName(doc.Replay.Prov))
 	fmt.Printf("replaying %s on mount %s\n", doc.Signature, doc.Replay.Mount)
 	at, _ := replayWord(w, doc.Replay.Word, func(s string) { fmt.Println(s) })
 	bad := at >= 0
